@@ -10,7 +10,7 @@ ROOT = os.path.dirname(os.path.dirname(os.path.abspath(__file__)))
 CHECKS = ['C%02d' % i for i in range(1, 21)]
 
 
-OWN = {'S3-C20': ['C20', 'C13'], 'S5-C04': ['C04', 'C13'], 'S7-C15': ['C15', 'C16'], 'S9-C15': ['C15', 'C17'], 'S10-C06': ['C06', 'C01'], 'S13-C15': ['C15', 'C16']}
+OWN = {'S3-C20': ['C20', 'C13'], 'S5-C04': ['C04', 'C13'], 'S7-C15': ['C15', 'C16'], 'S9-C15': ['C15', 'C17'], 'S10-C06': ['C06', 'C01'], 'S13-C15': ['C15', 'C16'], 'S15-C20': ['C20', 'C08']}
 MODE = {'own': False}
 
 
